@@ -386,9 +386,11 @@ def gen_cases(rng, count, nmin, nmax, kinds, max_len, cfg_choices=(100000,), two
     fk = [k for k in kinds if k in finals]
     for _ in range(count // 5 if fk else 0):
         rules = permute_variables(rng2, modular_network(rng2, rng2.randint(max(nmin, 4), max(nmax, 4))))
-        op = finals[rng2.choice(fk)]
+        key = rng2.choice(fk)
+        op = finals[key]
         if op[0] == "block" and rng2.random() < 0.5:
-            op = ("block", rng2.random() < 0.5, None, rng2.random() < 0.5, False)
+            # "blockplain" = block expansion WITHOUT source shortcuts (the only block calls C04 quantifies over): the shortcut stays off
+            op = ("block", rng2.random() < 0.5, None, (rng2.random() < 0.5) and key == "block", False)
         cases.append({"rules": rules, "config": {"max_motifs_per_node": 100000}, "history": [op]})
     return cases
 
